@@ -22,6 +22,7 @@ import (
 	"context"
 	"errors"
 	"io"
+	"os"
 	"sync"
 
 	"go4.org/jsonconfig"
@@ -87,7 +88,10 @@ func (sto *unionStorage) Fetch(ctx context.Context, b blob.Ref) (file io.ReadClo
 	var firstRes result
 	for r := range results {
 		if r.err != nil {
-			if firstErr == nil {
+			// A subset that failed for another reason than not
+			// having the blob may well have it: its error wins
+			// over the "does not exist" of the others.
+			if firstErr == nil || (errors.Is(firstErr, os.ErrNotExist) && !errors.Is(r.err, os.ErrNotExist)) {
 				firstErr = r.err
 			}
 			continue
